@@ -39,6 +39,7 @@ class Run:
         d = sc.get("dispose") or {}
         self.rec = vt.Recorder(w, "r", follow=follow, dispose_at=d.get("note"), raise_at=sc.get("sub_raise"))
         self.rec.raise_on_terminal = bool(sc.get("raise_on_terminal"))
+        self.rec.feed_on_terminal = sc.get("feed_on_terminal")
         self.rec.dispose_children = sc.get("dispose_children", True)
         self.rec.drop_children_on_terminal = sc.get("drop_children_on_terminal", False)
         self.sub_error = None
